@@ -132,3 +132,40 @@ Example c10_history_nonvacuous :
   | None => False
   end.
 Proof. vm_compute. split; reflexivity. Qed.
+
+(* ---- the server-side store (persistence.Manager over a key-value store, Model/Ticket.v), against
+   the same browser jar.  From ANY jar in which no cookie of the family sits under another domain or
+   path and ANY store contents: after a save (which reuses the presented ticket when it validates,
+   otherwise takes the fresh one) the next request presents a ticket cookie that validates, names the
+   key just written and unseals to exactly the saved session; after a clear the jar presents no
+   ticket and nothing loads.  Both steps preserve the jar invariant, so the statements chain over
+   any history of saves and clears.  `seal`/`unseal` stand for AES-GCM under the ticket secret
+   (premise: unseal inverts seal). *)
+From V.Model Require Import Ticket.
+From V.Proofs Require Import TicketStoreProofs.
+
+Theorem c10_ticket_load_after_save : forall (mac : str -> str), (forall m, is_bytes (mac m)) ->
+  forall seal unseal, (forall sec v, unseal sec (seal sec v) = Some v) ->
+  forall cfg host, 0 <= c_expire_ns cfg ->
+  forall j m v created fresh now now',
+  let name := c_name cfg in
+  let D := select_domain host (c_domains cfg) in
+  let P := c_path cfg in
+  dom_ok name D P j ->
+  is_bytes (fst fresh) -> is_bytes (snd fresh) ->
+  ts_ok created = true -> in_window created now' (c_expire_ns cfg) = true ->
+  let '(j', m') := ticket_step mac seal cfg host now (j, m) (TSave v created fresh) in
+  dom_ok name D P j' /\
+  snd (manager_load mac str unseal m' cfg (jar_cookies j') now') = Some v.
+Proof. exact ticket_load_after_save. Qed.
+Print Assumptions c10_ticket_load_after_save.
+
+Theorem c10_ticket_nothing_after_clear : forall (mac : str -> str) seal unseal cfg host j m now now',
+  let name := c_name cfg in
+  let D := select_domain host (c_domains cfg) in
+  let P := c_path cfg in
+  dom_ok name D P j ->
+  let '(j', m') := ticket_step mac seal cfg host now (j, m) TClear in
+  dom_ok name D P j' /\ manager_load mac str unseal m' cfg (jar_cookies j') now' = (None, None).
+Proof. exact ticket_nothing_after_clear. Qed.
+Print Assumptions c10_ticket_nothing_after_clear.
